@@ -207,8 +207,16 @@ def gen_include_scenario(rng, tier='quick'):
 
 
 def scenario_gen(fn, n_quick, n_thorough):
+    def one(rng, tier):
+        for _ in range(20):
+            try:
+                return fn(rng, tier)
+            except (ValueError, IndexError, KeyError, StopIteration):
+                continue
+        return fn(rng, tier)
+
     def gen(rng, tier):
-        return [fn(rng, tier) for _ in range(n_quick if tier == 'quick' else n_thorough)]
+        return [one(rng, tier) for _ in range(n_quick if tier == 'quick' else n_thorough)]
     return gen
 
 
